@@ -13,7 +13,7 @@ CLAIMED = {
             "buffer unchanged. The model is tied to /repo on every run by evaluating it in Coq's VM on the same inputs as the implementation.",
             "Trusted: Coq kernel+VM, the hand model's fidelity as sampled by the correspondence (exhaustive small buffers, every p mod 8 x n mod 8) and, for _extract_bits / read_as_int / read_as_bytes / the header accessors, the translator harness/gen_fun.py with the Python operation semantics of Base/PyEval.v; CPython int/bytes primitives.",
             "DESIGN.md section 4 C03, 8.1"),
-    "C02": ("Coq proof by induction over the packet list (loop invariant: unread buffer ++ pending reads = encoding of the remaining packets; any chunking, prefix k, trim threshold T, known/unknown total) + kernel-evaluated correspondence with ccsds_generator on bytes/file/socket sources, also with the buffer-trim literal of its code object replaced by small numbers (same number given to the model) + real >20 MB stream judged against the spec",
+    "C02": ("Coq proof by induction over the packet list (loop invariant: unread buffer ++ pending reads = encoding of the remaining packets; any chunking, prefix k, trim threshold T, known/unknown total) + translator: the packet-length expressions of ccsds_generator regenerated into Gallina from the current source and proved equal to the model's plen_ccsds on every run + kernel-evaluated correspondence with ccsds_generator on bytes/file/socket sources, also with the buffer-trim literal of its code object replaced by small numbers (same number given to the model) + real >20 MB stream judged against the spec",
             "Theorems C02_bytes_source / C02_file_socket_source / C02_loop_exact / C02_trim_and_chunking_irrelevant: for every list of CCSDS packets each preceded by k foreign bytes and every cutting of the stream into non-empty read results, the framer model yields exactly the packets, for all three source kinds, all T. Model tied to packets.ccsds_generator each run.",
             "Trusted: Coq kernel+VM; reader contract (read/recv return the next bytes, b'' at end); correspondence sampling (small streams exhaustively chunked); the trim branch is reached by the real 21 MB runs and by rebuilding ccsds_generator's function object with the literal 20_000_000 replaced (harness/framing.py; skipped if the literal is absent).",
             "DESIGN.md section 4 C02, 8.3"),
